@@ -500,6 +500,57 @@ func vC09Scenario(name string, seed uint64) string {
 			return "close-hangs/" + strings.Join(vParked(), ",")
 		}
 		return w.aftermath(time.Since(start), bound)
+	case "close-during-a-slow-upgrade":
+		// Close lands on a connection attempt whose TLS handshake is done and whose websocket upgrade the peer has not
+		// answered yet; the peer answers a moment later. Close returns, the connection which came into being is ended (the
+		// peer sees it end), nothing of the client is left
+		skey, ckey := vGenKey(r), vGenKey(r)
+		rs := vStartRawServer(skey, ckey.Pub)
+		defer rs.Close()
+		release := rs.HoldUpgrades()
+		defer release()
+		cc, err := vDialLib(context.Background(), rs.Addr, ckey, skey.Pub)
+		if err != nil {
+			return "setup"
+		}
+		select {
+		case <-rs.Held:
+		case <-time.After(5 * time.Second):
+			return "setup"
+		}
+		closed := make(chan bool, 1)
+		start := time.Now()
+		go func() { closed <- vClose(cc, 8*time.Second) }()
+		time.Sleep(time.Duration(50+r.Intn(200)) * time.Millisecond)
+		release()
+		if !<-closed {
+			return "close-hangs/" + strings.Join(vParked(), ",")
+		}
+		if took := time.Since(start); took > bound {
+			return fmt.Sprintf("close-exceeds-bound/%v", took)
+		}
+		// the peer: either the upgrade failed (the client had gone) or the connection it got ends promptly
+		select {
+		case conn := <-rs.Conns:
+			conn.SetReadDeadline(time.Now().Add(3 * time.Second))
+			for {
+				if _, _, err := conn.ReadMessage(); err != nil {
+					if ne, ok := err.(net.Error); ok && ne.Timeout() {
+						return "connection-made-during-close-left-open"
+					}
+					break
+				}
+			}
+		case <-time.After(500 * time.Millisecond):
+		}
+		time.Sleep(50 * time.Millisecond)
+		if left := vClientLeft(); len(left) > 0 {
+			return "goroutines-left-after-close/" + strings.Join(left, ",")
+		}
+		if st := cc.GetState(); st != connectivity.Shutdown {
+			return "closed-connection-reports-" + st.String()
+		}
+		return ""
 	case "peer-answers-each-call-several-times":
 		// a peer which sends several copies of every response (large ones, so that copies arrive while the caller is still
 		// decoding the first); the calls run under a context which never ends. Every call returns its reply, and Close
@@ -730,7 +781,7 @@ func vC09Scenario(name string, seed uint64) string {
 	return "unknown-scenario"
 }
 
-var vC09Names = []string{"idle-longer-than-write-timeout", "calls-in-flight", "inbound-requests-with-slow-handlers", "reconnect-in-progress", "inbound-burst", "concurrent-close", "close-right-after-dial", "write-fails-with-message-in-hand", "peer-closed-first", "close-while-call-is-being-prepared", "reconnect-after-several-failures", "close-after-dial-context-ended-and-connection-lost", "peer-answers-each-call-several-times"}
+var vC09Names = []string{"idle-longer-than-write-timeout", "calls-in-flight", "inbound-requests-with-slow-handlers", "reconnect-in-progress", "inbound-burst", "concurrent-close", "close-right-after-dial", "write-fails-with-message-in-hand", "peer-closed-first", "close-while-call-is-being-prepared", "reconnect-after-several-failures", "close-after-dial-context-ended-and-connection-lost", "peer-answers-each-call-several-times", "close-during-a-slow-upgrade"}
 
 func TestVerifC09Child(t *testing.T) {
 	spec := vChildSpec()
